@@ -552,7 +552,7 @@ def latest_mjd(plate, **kwargs):
     else:
         platevec = plate
     mjd = np.zeros(len(platevec), dtype='i4')
-    mjdre = re.compile(r'spPlate-[0-9]{4}-([0-9]{5}).fits')
+    mjdre = re.compile(r'spPlate-[0-9]{4,}-([0-9]{5}).fits')
     unique_plates = np.unique(platevec)
     paths = spec_path(unique_plates, path=kwargs.get('path'),
                       topdir=kwargs.get('topdir'), run2d=kwargs.get('run2d'))
